@@ -330,6 +330,7 @@ pub mod dag {
 }
 
 pub mod deserialize {
+    use crate::ffi::c_int_fast32_t;
     use crate::tests::ffi::bitstream::CBitstream;
     use crate::tests::ffi::dag::{CCombinatorCounters, CDagNode};
     use crate::tests::ffi::SimplicityErr;
@@ -344,7 +345,7 @@ pub mod deserialize {
             decodeJet: CCallbackDecodeJet,
             combinator_counters: *mut CCombinatorCounters,
             stream: *mut CBitstream,
-        ) -> i32;
+        ) -> c_int_fast32_t;
     }
 }
 
